@@ -20,7 +20,7 @@ AS_COMMON = [
 
 GEN = ["ctx.*"]
 ALL_REPL = ["vclock", "gcounter", "pncounter", "gset", "maxreg", "minreg", "lww", "mvreg", "orswot",
-            "mapmv", "mapor", "mapmm", "glist", "list", "merkle"]
+            "mapmv", "mapor", "mapmm", "mapmo", "glist", "list", "merkle"]
 
 
 API_GEN = ["ctx.*", "*.add", "*.add_all", "*.rm", "*.rm_all", "*.write", "*.update", "*.update.closure",
@@ -46,14 +46,14 @@ PROPS = {
              extra_as=["states reachable by replicas with distinct actors; LWWReg with unique markers"] + MAP_AS),
     "C03": P([t for t in ALL_REPL if t not in ("list", "vclock")], CONV_FP + ["*.reset"], quick=1000, streams=("structured",),
              extra_as=["knowledge sets closed under per-actor order"] + MAP_AS),
-    "C07": P(["orswot", "mvreg", "mapmv", "mapor", "mapmm"], READS + ["ctx.*"] + ["*.apply", "*.merge"], streams=("structured",),
+    "C07": P(["orswot", "mvreg", "mapmv", "mapor", "mapmm", "mapmo"], READS + ["ctx.*"] + ["*.apply", "*.merge"], streams=("structured",),
              extra_as=["top-level replicas only; Map: structural facts for every state reachable by well-formed ops and merges, the 'exactly the surviving witnesses' clause is proved for top-level Map keys (C07_map_get_context_exact) and for Orswot members"]),
-    "C08": P(["orswot", "mvreg", "mapmv", "mapor", "mapmm", "gcounter", "pncounter", "gset", "glist", "merkle", "list"], CONV_FP + ["*.reset"], quick=1000, streams=("structured",),
+    "C08": P(["orswot", "mvreg", "mapmv", "mapor", "mapmm", "mapmo", "gcounter", "pncounter", "gset", "glist", "merkle", "list"], CONV_FP + ["*.reset"], quick=1000, streams=("structured",),
              extra_as=["each actor's ops delivered in issue order, otherwise arbitrary"] + MAP_AS),
     "C09": P(ALL_REPL, CONV_FP + ["*.reset"], quick=1000, streams=("structured",), extra_as=MAP_AS),
-    "C16": P(["vclock", "orswot", "list", "merkle", "lww", "mapmv", "mapor", "mapmm"], ["*.validate_op", "*.apply"] + API_GEN, quick=1000, streams=("structured", "malformed"), exact=["*.validate_op"],
+    "C16": P(["vclock", "orswot", "list", "merkle", "lww", "mapmv", "mapor", "mapmm", "mapmo"], ["*.validate_op", "*.apply"] + API_GEN, quick=1000, streams=("structured", "malformed"), exact=["*.validate_op"],
              extra_as=["Map::validate_op violates this property on the unchanged tree: known finding K1"]),
-    "C17": P(["orswot", "lww", "mapmv", "mapor", "mapmm"], ["*.validate_merge", "*.apply", "*.merge"] + API_GEN, quick=1000, streams=("structured", "malformed"), exact=["*.validate_merge"],
+    "C17": P(["orswot", "lww", "mapmv", "mapor", "mapmm", "mapmo"], ["*.validate_merge", "*.apply", "*.merge"] + API_GEN, quick=1000, streams=("structured", "malformed"), exact=["*.validate_merge"],
              extra_as=["Orswot::validate_merge rejects correct use of add_all: known finding K2"]),
     "C19": P(ALL_REPL, ["serde", "serde.op"], quick=1000, streams=("structured",), exact=["serde", "serde.op"],
              extra_tb=["serde derive + serde_json modelled by coq/model/Serde.v (JSON tree; integer map keys abstracted as KNum; 32-byte hashes as one number); tied to the real crates by comparing real serde_json output with enc/dec on every sampled state"],
@@ -62,7 +62,7 @@ PROPS = {
     "C04": P(["orswot"], ["orswot.apply", "orswot.merge", "orswot.validate_op"] + ["orswot." + r[2:] for r in READS] + ["orswot.add", "orswot.add_all", "orswot.rm", "orswot.rm_all", "ctx.*"],
              extra_as=["each actor's adds are delivered in issue order (the documented contract); removes in any order",
                        "ops are generated through the public API from reads of the generating replica"]),
-    "C05": P(["mapmv", "mapor", "mapmm"], ["map*.*", "orswot.reset", "mvreg.reset", "orswot.apply", "mvreg.apply", "orswot.merge", "mvreg.merge", "ctx.*", "orswot.add", "orswot.rm", "orswot.rm_all", "mvreg.write", "orswot.contains", "orswot.read"],
+    "C05": P(["mapmv", "mapor", "mapmm", "mapmo"], ["map*.*", "orswot.reset", "mvreg.reset", "orswot.apply", "mvreg.apply", "orswot.merge", "mvreg.merge", "ctx.*", "orswot.add", "orswot.rm", "orswot.rm_all", "mvreg.write", "orswot.contains", "orswot.read"],
              extra_as=["the VALUE half of the property is REFUTED on the unchanged tree (T1, T2, T3): for it the check relies on the correspondence of the faithful model, the Coq refutation witnesses, and the monitors' known-finding classes",
                        "the KEY half (key set, entry clocks = surviving witnesses, contexts, pending-remove table) is PROVED for every nested value type (proofs/MapKeys.v: Map's key layer simulates an Orswot) and monitored by the extracted decider mkeyspec_ok, which no known finding can mask",
                        "histories of API-generated ops (update with a context from a read for the replica's own actor; rm with the context of get/read_ctx/len/is_empty), per-actor delivery order, duplicates, merges"],
@@ -88,7 +88,7 @@ PROPS = {
     "C15": P(["merkle"], ["merkle.*"], all_inputs=True,
              extra_tb=["SHA3-256 content addressing modelled as an arbitrary injective function (premise of the theorems, no axiom); the driver maps real hashes to fresh model hashes"],
              extra_as=["distinct nodes have distinct hashes (collision-freedom of SHA3)"]),
-    "C18": P(["vclock", "gcounter", "pncounter", "mvreg", "orswot", "mapmv", "mapor", "mapmm"],
+    "C18": P(["vclock", "gcounter", "pncounter", "mvreg", "orswot", "mapmv", "mapor", "mapmm", "mapmo"],
              ["*.reset", "vclock.clone_without"], all_inputs=False, exact=["*.reset", "vclock.clone_without"],
              extra_as=["states are well-formed (no stored zero, no stored empty witness clock, witness clocks below the top clock): proved for reachable Orswot states; assumed for Map states, where it is checked by the monitor on every sampled state"]),
 }
